@@ -134,8 +134,8 @@ def run(ctx, rep):
     PFX = ("quara.loss_function", "quara.interface.cvxpy.qtomography.standard.loss_function")
     stale = list(stale_loop_variable_reads(ctx, PFX))
     for f_, x_, lp_ in stale:
-        rep.violation("W8", f_, "%s read at line %d" % (x_.id, x_.lineno), "`%s` is bound only by the loop at line %d, which has ended; the loop that reads it here "
-                      "gets the value of that loop's LAST item in every iteration" % (x_.id, lp_.lineno), node=x_)
+        rep.violation("W8", f_, "%s read at line %d" % (x_.id, x_.lineno), "`%s` is bound only by the loop at line %d, which has ended; the code that reads it here "
+                      "gets the value of that loop's LAST item (a per-item computation or check that is no longer inside its loop)" % (x_.id, lp_.lineno), node=x_)
     nl = count_loops(ctx, PFX)
     if nl and not stale:
         rep.holds("W8", "quara.loss_function", "%d loops" % nl, "every loop variable is read inside its own loop (or after it, outside any loop)")
